@@ -5,7 +5,7 @@ import pickle
 import re
 import warnings
 
-from common import time_limit, hex6
+from common import time_limit, hex6, is_library_exception
 
 ID = "C10"
 GEN_DEPENDS = ["Tables", "C10Kernels", "C10Lower"]
@@ -78,6 +78,46 @@ MUTATORS = {"sortk", "mknsimm", "copykw", "append", "remove", "pickle", "rmlf", 
 BASE_LABELS = ["a", "A", "b", "B", "ab", "Ab", "aB", "AB", "c d", "c_d", "x'y", "e(f", "g,h", "É", "é", "Z", "z", "z1",
                "Q q", "r_s t", "T:1", "u-v", "w[1]", "ño", "ÑO", "ß", "k;", "=m", "n\tn", "1", "10"]
 ALPHA = "abAB cd_'(),:;[]{}-=*/\\\"+<>ÉéÑñß×" + "xyzXYZ019"
+
+
+# ---------------------------------------------------------------- reading library state without trusting it
+def safe_index(ns, t):
+    """the accession index the library reports for t, or None when it reports none / raises / answers something that is no index.
+    Generators and the oracle read the namespace through these helpers only: an incoherent namespace must end as an oracle
+    failure of the one-to-one clause, never as a harness exception."""
+    try:
+        i = ns.accession_index(t)
+    except Exception:  # noqa
+        return None
+    return i if (isinstance(i, int) and not isinstance(i, bool) and i >= 0) else None
+
+
+def safe_bit(ns, t):
+    i = safe_index(ns, t)
+    return 0 if i is None else 1 << i
+
+
+def safe_all(ns):
+    try:
+        m = ns.all_taxa_bitmask()
+    except Exception:  # noqa
+        return 0
+    return m if (isinstance(m, int) and not isinstance(m, bool) and m >= 0) else 0
+
+
+def shaped(form, items, nss=None, want_ids=None, tid=None):
+    """the iterable handed to a bulk operation: list / tuple / one-shot iterator / another namespace object itself"""
+    if form == "iter":
+        return iter(list(items))
+    if form == "gen":
+        return (x for x in list(items))
+    if form == "tuple":
+        return tuple(items)
+    if isinstance(form, str) and form.startswith("ns:") and nss is not None:
+        m = int(form[3:])
+        if 0 <= m < len(nss) and [tid.get(id(t)) for t in nss[m]] == list(want_ids):
+            return nss[m]
+    return list(items)
 
 
 # ---------------------------------------------------------------- op encoding (line protocol)
@@ -217,7 +257,8 @@ class World(object):
                 t = d.Taxon(label=op[1])
                 return "t%d" % self.reg(t), t
             if k == "mkns":
-                ns = d.TaxonNamespace([self.taxa[x] if isinstance(x, int) else x for x in op[2]], is_case_sensitive=op[1])
+                ns = d.TaxonNamespace(shaped(op[3] if len(op) > 3 else "list", [self.taxa[x] if isinstance(x, int) else x for x in op[2]]),
+                                      is_case_sensitive=op[1])
                 for t in ns:
                     self.reg(t)
                 self.nss.append(ns)
@@ -297,14 +338,14 @@ class World(object):
                 ns.add_taxon(self.taxa[op[2]])
                 return "ok", None
             if k == "addtaxa":
-                ns.add_taxa([self.taxa[t] for t in op[2]])
+                ns.add_taxa(shaped(op[3] if len(op) > 3 else "list", [self.taxa[t] for t in op[2]], self.nss, op[2], self.tid))
                 return "ok", None
             if k == "new":
                 t = ns.new_taxon(op[2])
                 return "t%d" % self.reg(t), t
             if k == "newtaxa":
                 try:
-                    r = ns.new_taxa(op[2])
+                    r = ns.new_taxa(shaped(op[3] if len(op) > 3 else "list", op[2]))
                 finally:
                     for t in ns:
                         self.reg(t)
@@ -405,10 +446,8 @@ class World(object):
         for ns in self.nss:
             ms = []
             for t in ns:
-                try:
-                    i = str(ns.accession_index(t))
-                except KeyError:
-                    i = "?"
+                i = safe_index(ns, t)
+                i = "?" if i is None else str(i)
                 ms.append("%s.%s.%s" % (self.tid.get(id(t), "?"), i, hex6(t.label)))
             out.append("m%sc%s:%s" % (b01(ns.is_mutable), b01(ns.is_case_sensitive), ",".join(ms)))
         return "/".join(out)
@@ -514,6 +553,7 @@ class Oracle(object):
         self.ctx, self.w, self.ops = ctx, world, ops
         self.masks = {}      # (ns index, id(taxon)) -> mask observed while it has been a member
         self.failed = []
+        self.incoherent = False
 
     def fail(self, kind, what, upto):
         self.failed.append((kind, what, upto))
@@ -524,10 +564,7 @@ class Oracle(object):
             members = list(ns)
             idx = {}
             for t in members:
-                try:
-                    idx[id(t)] = ns.accession_index(t)
-                except KeyError:
-                    idx[id(t)] = None
+                idx[id(t)] = safe_index(ns, t)
             out.append((members, idx, bool(ns.is_mutable), bool(ns.is_case_sensitive)))
         return out
 
@@ -723,16 +760,55 @@ class Oracle(object):
         if not (given <= {id(t) for t in cm} and sorted((t.label for t in new), key=lkey) == labels):
             self.fail("members", "TaxonNamespace(%r): members %s" % (op[2], [t.label for t in cm]), k)
 
+    def two_bits(self, j, members, idx):
+        """one taxon reachable from two bits, or from a bit that is not its own (read through bitmask_taxa_list, bit by bit)"""
+        ns = self.w.nss[j]
+        mids = {id(t) for t in members}
+        width = max([safe_all(ns).bit_length()] + [v + 1 for v in idx.values() if isinstance(v, int)])
+        owner = {}
+        for i in range(min(width, 4096)):
+            try:
+                r = list(ns.bitmask_taxa_list(1 << i))
+            except Exception:  # noqa: a bit without a taxon
+                continue
+            for t in r:
+                if id(t) in mids:
+                    owner.setdefault(id(t), []).append(i)
+        for t in members:
+            bits = owner.get(id(t), [])
+            if len(bits) > 1 or (bits and idx.get(id(t)) is not None and bits != [idx[id(t)]]):
+                return "member %r of namespace %d is found at bits %s by bitmask_taxa_list, its accession index is %s" % (
+                    t.label, j, bits, idx.get(id(t)))
+        return None
+
     def after(self, k, op, ret, raw, before, after):
         w, kind = self.w, op[0]
         n = op[1] if kind not in ("mk", "mkns", "mknsimm", "relabel") else None
         # ---- (a) one-to-one and stable, in every namespace; (d) immutable namespaces never grow
         for j, (members, idx, mut, cs) in enumerate(after):
+            bad = False
             if len({id(t) for t in members}) != len(members):
-                self.fail("bits", "namespace %d lists a taxon twice after %s" % (j, kind), k)
+                seen, twice = set(), []
+                for t in members:
+                    if id(t) in seen:
+                        twice.append(t.label)
+                    seen.add(id(t))
+                self.fail("bits", "namespace %d lists a taxon twice after %s %r: members %s, repeated %s" % (
+                    j, kind, op[2:], [t.label for t in members], twice), k)
+                bad = True
             vals = [idx[id(t)] for t in members]
-            if any(not isinstance(v, int) or v < 0 for v in vals) or len(set(vals)) != len(vals):
-                self.fail("bits", "after %s the members of namespace %d have accession bits %s (must be distinct)" % (kind, j, vals), k)
+            uniq = {id(t): idx[id(t)] for t in members}
+            if any(not isinstance(v, int) or v < 0 for v in vals) or len(set(uniq.values())) != len(uniq):
+                self.fail("bits", "after %s the members of namespace %d have accession bits %s (every member needs one, all distinct)" % (kind, j, vals), k)
+                bad = True
+            if not bad and kind in MUTATORS and (j == n or j >= len(before)):
+                msg = self.two_bits(j, members, idx)
+                if msg:
+                    self.fail("bits", "after %s %r: %s" % (kind, op[2:], msg), k)
+                    bad = True
+            if bad:
+                # the namespace is no one-to-one taxon/bit map any more: nothing else can be judged on it, the history ends here
+                self.incoherent = True
             if j < len(before):
                 bm, bidx, bmut, _ = before[j]
                 for t in members:
@@ -746,6 +822,8 @@ class Oracle(object):
                     gained = [t.label for t in members if id(t) not in bidx]
                     if gained:
                         self.fail("immutable", "immutable namespace %d gained %s through %s" % (j, gained, kind), k)
+        if self.incoherent:
+            return
         isexc = isinstance(raw, Exception)
         if kind == "mkns":
             self.check_ctor(k, op, raw, isexc, before, after)
@@ -960,7 +1038,14 @@ def run_history(ctx, dendropy, opgen, pending, fixed_ops=None, kind="random", co
                 break
             op = fixed_ops[k]
         else:
-            op = opgen(w, k)
+            try:
+                op = opgen(w, k)
+            except Exception as e:  # noqa
+                if not is_library_exception(e):
+                    raise
+                # the generator was reading the namespace (public accessors) and the library raised: the state is incoherent
+                orc.fail("bits", "reading namespace state before op %d raised %s: %s" % (k, type(e).__name__, e), max(k - 1, 0))
+                break
             if op is None:
                 break
         op = [list(x) if isinstance(x, tuple) else x for x in op]
@@ -985,8 +1070,17 @@ def run_history(ctx, dendropy, opgen, pending, fixed_ops=None, kind="random", co
             ret = "TypeError"       # neither taxa= nor labels=: get_taxa() refuses the call
         mops.append(mop)
         outs.append(ret + " # " + w.dump())
-        orc.after(k, op, ret, raw, before, after)
+        try:
+            orc.after(k, op, ret, raw, before, after)
+        except Exception as e:  # noqa
+            if not is_library_exception(e):
+                raise
+            orc.fail("bits", "judging %s %r: reading the namespace raised %s: %s" % (op[0], op[1:], type(e).__name__, e), k)
+            orc.incoherent = True
         k += 1
+        if orc.incoherent:
+            compare = False     # the model has nothing to say about a namespace that is no one-to-one map any more
+            break
     report(ctx, dendropy, ops, orc, shrink=fixed_ops is None)
     kinds = {o[0] for o in ops}
     nontrivial = bool(kinds & {"rm", "del", "rml", "dl", "clear", "sort", "rev", "copy", "shallow", "deep", "remove", "sortk", "copykw", "pickle"})
@@ -1027,10 +1121,18 @@ def fails_with(dendropy, ops, kind):
             before = orc.snap()
             with time_limit(20):
                 ret, raw = w.call(op)
-            orc.after(k, op, ret, raw, before, orc.snap())
+            try:
+                orc.after(k, op, ret, raw, before, orc.snap())
+            except Exception as e:  # noqa
+                if not is_library_exception(e):
+                    raise
+                orc.fail("bits", "judging %s %r: reading the namespace raised %s: %s" % (op[0], op[1:], type(e).__name__, e), k)
+                orc.incoherent = True
             for f in orc.failed:
                 if f[0] == kind:
                     return f[2], f[1]
+            if orc.incoherent:
+                return None
     except BadRef:
         return None
     return None
@@ -1122,7 +1224,7 @@ def member_mask(rng, ns):
     members = list(ns)
     r = rng.random()
     if not members or r < 0.1:
-        return rng.randrange(0, 1 << (ns.all_taxa_bitmask().bit_length() + 1))
+        return rng.randrange(0, 1 << (safe_all(ns).bit_length() + 1))
     if r < 0.35:
         sub = [rng.choice(members)]
     elif r < 0.45:
@@ -1131,7 +1233,7 @@ def member_mask(rng, ns):
         sub = [t for t in members if rng.random() < 0.5]
     m = 0
     for t in sub:
-        m |= 1 << ns.accession_index(t)
+        m |= safe_bit(ns, t)
     return m
 
 
@@ -1216,6 +1318,30 @@ class RandomGen(object):
         t = self.some_taxon(w, ns, 0.5)
         return ["in", n, t] if t is not None else ["all", n]
 
+    def bulk(self, w, n):
+        """add_taxa with the iterables a caller pools taxa with: Taxon objects that are not members yet mentioned more than once
+        (the leaf taxa of two trees sharing taxa), members repeated, both mixed, as list / tuple / one-shot iterator / generator, or
+        another namespace object itself"""
+        rng, ns = self.rng, w.nss[n]
+        mids = {id(t) for t in ns}
+        non = [i for i, t in enumerate(w.taxa) if id(t) not in mids]
+        mem = [i for i, t in enumerate(w.taxa) if id(t) in mids]
+        style = rng.choice(["repeat-new", "repeat-new", "repeat-member", "mix", "mix", "plain", "other-ns"])
+        if style == "other-ns" and len(w.nss) > 1:
+            m = rng.choice([j for j in range(len(w.nss)) if j != n])
+            return ["addtaxa", n, [w.tid[id(t)] for t in w.nss[m]], "ns:%d" % m]
+        ts = []
+        if style in ("repeat-new", "mix") and non:
+            pick = rng.sample(non, min(len(non), rng.randint(1, 3)))
+            ts += pick + [rng.choice(pick) for _ in range(rng.randint(1, 3))]
+        if style in ("repeat-member", "mix") and mem:
+            pick = rng.sample(mem, min(len(mem), rng.randint(1, 2)))
+            ts += pick + [rng.choice(pick) for _ in range(rng.randint(0, 2))]
+        if not ts and w.taxa:
+            ts = [rng.randrange(len(w.taxa)) for _ in range(rng.randint(0, 3))]
+        rng.shuffle(ts)
+        return ["addtaxa", n, ts, rng.choice(["list", "list", "iter", "gen", "tuple"])]
+
     def mutator(self, w, n):
         rng, ns = self.rng, w.nss[n]
         members = list(ns)
@@ -1228,13 +1354,20 @@ class RandomGen(object):
             # add: a free / removed / foreign taxon, sometimes a member
             t = self.some_taxon(w, ns, 0.2)
             return ["add", n, t] if t is not None else ["mk", self.label()]
-        if r < 0.35:
+        if r < 0.34:
             return ["mk", self.label()]
-        if r < 0.38:
-            ts = [rng.randrange(len(w.taxa)) for _ in range(rng.randint(0, 3))] if w.taxa else []
-            return ["addtaxa", n, ts]
+        if r < 0.39:
+            mids = {id(t) for t in members}
+            if sum(1 for t in w.taxa if id(t) not in mids) < 2 and rng.random() < 0.6:
+                # make two Taxon objects that are members of nothing yet, then pool them (repeated) into the namespace
+                self.follow = [("again", n, ["mk", self.label()]), ("bulk", n, None)]
+                return ["mk", self.label()]
+            return self.bulk(w, n)
         if r < 0.41:
-            return ["newtaxa", n, [self.label() for _ in range(rng.randint(0, 3))]]
+            ls = [self.label() for _ in range(rng.randint(0, 3))]
+            if ls and rng.random() < 0.4:
+                ls += [rng.choice(ls) for _ in range(rng.randint(1, 2))]      # the same label twice: two new taxa
+            return ["newtaxa", n, ls, rng.choice(["list", "list", "iter", "gen", "tuple"])]
         if r < 0.53:
             t = self.some_taxon(w, ns, 0.92)
             return ["rm", n, t] if t is not None else ["clear", n]
@@ -1297,6 +1430,13 @@ class RandomGen(object):
             return ["scoped", op[1]]
         if k == "has" and r < 0.1:
             return ["tbmkw", op[1], self.cflag(), False, None, None]
+        if k == "mk" and 0.25 <= r < 0.5 and len(w.nss) < 4 and w.taxa:
+            pick = [rng.randrange(len(w.taxa)) for _ in range(rng.randint(1, 3))]
+            items = pick + [rng.choice(pick) for _ in range(rng.randint(1, 2))] + [self.label() for _ in range(rng.randint(0, 2))]
+            if rng.random() < 0.3:
+                items += [x for x in items if not isinstance(x, int)][:1]
+            rng.shuffle(items)
+            return ["mkns", rng.random() < 0.25, items, rng.choice(["list", "iter", "gen", "tuple"])]
         if k == "mk" and r < 0.25 and len(w.nss) < 4:
             items = [self.label() for _ in range(rng.choice([0, 0, 1, 2]))]
             if w.taxa and rng.random() < 0.3:
@@ -1331,7 +1471,7 @@ class RandomGen(object):
             for t in members:
                 ops.append(["bm", n, w.tid[id(t)]])
             for t in members[:6]:
-                ops.append(["nwk", n, 1 << ns.accession_index(t), False, True])
+                ops.append(["nwk", n, safe_bit(ns, t), False, True])
             for _ in range(2):
                 ops.append(["tbm", n, [w.tid[id(t)] for t in members if rng.random() < 0.5]])
             ops.append(["bits", n, member_mask(rng, ns)])
@@ -1365,12 +1505,15 @@ class RandomGen(object):
                 elif what == "btl" and members:
                     m = 0
                     for t in members:
-                        m |= 1 << fns.accession_index(t)
+                        m |= safe_bit(fns, t)
                     return ["btl", fn, m]
                 elif what == "bmany" and members:
                     return ["bm", fn, w.tid[id(rng.choice(members))]]
                 elif what == "all":
                     return ["all", fn]
+                elif what == "bulk":
+                    self.follow = [("btl", fn, None), ("bmany", fn, None)] + self.follow
+                    return self.bulk(w, fn)
                 elif what == "dead":
                     # the bit of the taxon that has just left: bitmask_taxa_list must not find anybody there (index -> taxon map)
                     return ["btl", fn, ft] if rng.random() < 0.7 else ["btli", fn, 1, ft.bit_length() - 1]
@@ -1379,7 +1522,7 @@ class RandomGen(object):
                 op = self.mutator(w, n)
                 dead = None
                 if op[0] == "rm" and any(t is w.taxa[op[2]] for t in w.nss[n]):
-                    dead = 1 << w.nss[n].accession_index(w.taxa[op[2]])
+                    dead = safe_bit(w.nss[n], w.taxa[op[2]]) or None
                 if op[0] == "req" and rng.random() < 0.3:
                     self.follow = [("again", n, list(op))]      # requiring the same label twice creates at most one taxon
                 elif op[0] in ("add", "new", "req") and rng.random() < 0.6:
@@ -1410,6 +1553,9 @@ def resolve(sym, w, removed):
     if k == "readd":
         cand = [t for t in removed if not any(x is w.taxa[t] for x in members)]
         return ["add", 0, cand[-1]] if cand else None
+    if k == "readd2":
+        cand = [t for t in removed if not any(x is w.taxa[t] for x in members)]
+        return ["addtaxa", 0, [cand[-1], cand[-1]] + ([cand[0]] if len(cand) > 1 else []), "iter"] if cand else None
     if k == "relabel_pos":
         if not members:
             return None
@@ -1421,7 +1567,7 @@ SYMBOLS = [("new", 0, "a"), ("new", 0, "B"), ("req", 0, None, "A"), ("req", 0, T
            ("rm_pos", 0), ("rm_pos", 1), ("rm_pos", -1), ("readd",), ("rml", 0, None, "a"), ("dl", 0, True, "b"),
            ("sort", 0, False), ("sort", 0, True), ("rev", 0), ("clear", 0), ("relabel_pos", 0, "b"), ("relabel_pos", -1, "A"),
            ("copy", 0), ("deep", 0), ("setmut", 0, False), ("setcs", 0, True), ("del", 0, 1), ("dlf", 0, None, "a"),
-           ("sortk", 0, "acc", True), ("copykw", 0, True, None)]
+           ("sortk", 0, "acc", True), ("copykw", 0, True, None), ("readd2",)]
 BASES = [["b", "a", "A", "c"], ["x", "B", "b"]]
 
 
@@ -1447,7 +1593,7 @@ class SymbolicGen(object):
                 members = list(ns)
                 for t in members:
                     self.burst.append(["bm", n, w.tid[id(t)]])
-                    self.burst.append(["nwk", n, 1 << ns.accession_index(t), False, True])
+                    self.burst.append(["nwk", n, safe_bit(ns, t), False, True])
                 self.burst.append(["tbm", n, [w.tid[id(t)] for t in members[::2]]])
                 self.burst.append(["tbm", n, [w.tid[id(t)] for t in members]])
                 self.burst.append(["find", n, None, "a"])
@@ -1457,8 +1603,8 @@ class SymbolicGen(object):
                 self.burst.append(["tbmkw", n, None, True, None, ["A", "b"]])
                 self.burst.append(["ltm", n, None, "a"])
                 if members:
-                    self.burst.append(["bits", n, 1 << ns.accession_index(members[-1])])
-                    self.burst.append(["btl", n, 1 << ns.accession_index(members[0])])
+                    self.burst.append(["bits", n, safe_bit(ns, members[-1])])
+                    self.burst.append(["btl", n, safe_bit(ns, members[0])])
             self.bj = k
         j = k - self.bj
         return self.burst[j] if j < len(self.burst) else None
@@ -1579,7 +1725,12 @@ def kernel_functions(ctx, dendropy, rng, count):
         if m is None:
             continue
         ctx.compared()
-        ok, want = kernel_check(dendropy, line, m)
+        try:
+            ok, want = kernel_check(dendropy, line, m)
+        except Exception as e:  # noqa
+            if not is_library_exception(e):
+                raise
+            ok, want = False, "the implementation raised %s: %s" % (type(e).__name__, e)
         if not ok:
             ctx.disagree("kernel:" + line.split()[0], {"line": line}, want, m)
     ctx.count("kernel_cases (Gen/C10Kernels.lean against the implementation)", len(lines))
@@ -1604,8 +1755,11 @@ class BitsGen(object):
             r = rng.random()
             if members and r < 0.45:
                 return ["rm", 0, w.tid[id(rng.choice(members))]]
-            if r < 0.6 and w.taxa:
+            if r < 0.52 and w.taxa:
                 return ["add", 0, rng.randrange(len(w.taxa))]
+            if r < 0.6 and w.taxa:
+                pick = [rng.randrange(len(w.taxa)) for _ in range(rng.randint(1, 3))]
+                return ["addtaxa", 0, pick + [rng.choice(pick)], rng.choice(["list", "iter"])]
             if r < 0.75:
                 return ["new", 0, rng.choice(BASE_LABELS)]
             if r < 0.85:
@@ -1617,7 +1771,7 @@ class BitsGen(object):
             plan = []
             for t in members:
                 tid = w.tid[id(t)]
-                m = 1 << ns.accession_index(t)
+                m = safe_bit(ns, t)
                 plan += [["bm", 0, tid], ["acc", 0, tid], ["nwk", 0, m, False, True], ["btl", 0, m], ["bits", 0, m], ["tbm", 0, [tid]]]
             for _ in range(6):
                 m = member_mask(rng, ns)
